@@ -36,9 +36,31 @@ enum Entry {
 }
 const ENTRIES: [Entry; 4] = [Entry::Typed, Entry::TypedInplace, Entry::Dyn, Entry::DynInplace];
 
+thread_local! {
+    /// long-lived MulDiv objects, one per back-end, shared by calls on every pixel type
+    static SHARED: std::cell::RefCell<Vec<(Ext, MulDiv)>> = std::cell::RefCell::new(Vec::new());
+}
+
 fn apply<P: Px>(src: &[P], w: u32, h: u32, divide: bool, entry: Entry, ext: Ext) -> Result<Vec<P>, String> {
+    // rows of odd length go through a MulDiv that has served other pixel types and sizes before, the others through a fresh one
+    if w % 2 == 1 {
+        return SHARED.with(|c| {
+            let mut v = c.borrow_mut();
+            if !v.iter().any(|(e, _)| *e == ext) {
+                let mut md = MulDiv::new();
+                unsafe { md.set_cpu_extensions(ext.to_fr()) };
+                v.push((ext, md));
+            }
+            let md = &v.iter().find(|(e, _)| *e == ext).unwrap().1;
+            apply_with::<P>(md, src, w, h, divide, entry)
+        });
+    }
     let mut md = MulDiv::new();
     unsafe { md.set_cpu_extensions(ext.to_fr()) };
+    apply_with::<P>(&md, src, w, h, divide, entry)
+}
+
+fn apply_with<P: Px>(md: &MulDiv, src: &[P], w: u32, h: u32, divide: bool, entry: Entry) -> Result<Vec<P>, String> {
     let e = |e: fr::ImageError| format!("{:?}", e);
     let e2 = |e: fr::MulDivImagesError| format!("{:?}", e);
     match entry {
